@@ -2,6 +2,7 @@ package vanguard
 
 import (
 	"context"
+	"io"
 	"net/http"
 	"net/url"
 	"strings"
@@ -387,4 +388,58 @@ func hC18RestMethod() {
 	}
 	verifAssert(backend.calls == 0 && unk.calls == 0, "C18: a request with a method the matching route does not have never reaches a handler")
 	verifAssert(sink.status == 405 && strings.Contains(sink.headSnap.Get("Allow"), "GET"), "C18: it is answered 405 with an Allow header naming the route's methods")
+}
+
+// hC18Late: a handler that keeps the request body and the ResponseWriter it was given and uses them after it has
+// returned (a leaked goroutine, a deferred cleanup that runs late). By the time ServeHTTP has returned the
+// transcoder performs no further reads of the client's body and no further writes to the client's connection.
+func hC18Late() {
+	cfg := &pipeCfg{maxMsg: 64, kind: fkBidi, clientCodec: CodecProto}
+	cfg.client = []int{cfGRPC, cfGRPCWeb, cfConnectStream}[verifChoose("client", 3)]
+	cfg.svcProtos = []Protocol{pipeProtocols[verifChoose("target", 3)]}
+	cfg.svcCodecs = []string{[]string{CodecProto, CodecJSON}[verifChoose("otherCodec", 2)]}
+	if pipeIsPassThrough(cfg) {
+		return
+	}
+	p := newPipe(cfg)
+	if !p.buildOK {
+		return
+	}
+	target, codec, _ := refNegotiate(cfg)
+	var keptBody io.Reader
+	var keptWriter http.ResponseWriter
+	readFirst := verifChoose("handlerReadsFirstMessage", 2) == 1
+	p.tr.methods[pipePath].handler = http.HandlerFunc(func(w http.ResponseWriter, r *http.Request) {
+		keptBody, keptWriter = r.Body, w
+		if readFirst {
+			buf := make([]byte, 6)
+			r.Body.Read(buf)
+		}
+		w.Header().Set("Content-Type", p.backendContentType())
+		w.Write(appendFrame(nil, 0, encodeMsg(codec, wireMsg{abstract: []byte{'r'}})))
+		switch target {
+		case ProtocolGRPC:
+			w.Header().Set(http.TrailerPrefix+"Grpc-Status", "0")
+		case ProtocolGRPCWeb:
+			w.Write(appendFrame(nil, 0x80, []byte("grpc-status: 0\r\n")))
+		default:
+			w.Write(appendFrame(nil, 2, []byte("{}")))
+		}
+	})
+	p.serve([]wireMsg{{abstract: []byte{'a'}}, {abstract: []byte{'b'}}})
+	verifReach("handler-returned")
+	if keptBody == nil {
+		return
+	}
+	readsBefore, posBefore, wroteBefore := p.body.reads, p.body.pos, len(p.sink.body)
+	buf := make([]byte, 16)
+	n, _ := keptBody.Read(buf)
+	keptWriter.Write(appendFrame(nil, 0, encodeMsg(codec, wireMsg{abstract: []byte{'z'}})))
+	if f, ok := keptWriter.(http.Flusher); ok {
+		f.Flush()
+	}
+	verifObsInt("late-read-bytes", int64(n))
+	verifAssert(p.body.reads == readsBefore && p.body.pos == posBefore, "C18: no further reads of the client's body after ServeHTTP has returned")
+	verifAssert(n == 0, "C18: a read after ServeHTTP has returned hands out nothing")
+	verifAssert(len(p.sink.body) == wroteBefore, "C18: no further writes to the client after ServeHTTP has returned")
 }
